@@ -16,6 +16,7 @@ import re
 
 from vlib import Broken, NCPU, ROOT, log
 
+PROPS = {"C01": "model_checking", "C02": "model_checking", "C03": "model_checking", "C04": "model_checking"}
 HARNESS = ["zz_verif_routing_test.go"]
 
 # which monitor clauses decide which property
@@ -27,31 +28,65 @@ CLAUSES = {
 }
 
 # (design cfgs, [(sim cfg, mode, ns, nt, late, sample)], ...)
+def hold_filter(sc):
+    """keep hold schedules in which the proxy reads a task batch while a sender sits in its close window"""
+    held = False
+    for c in sc["cmds"]:
+        if c["c"] == "holdtgt":
+            held = True
+        elif c["c"] == "releasetgt":
+            held = False
+        elif c["c"] == "tasks" and held:
+            return True
+    return False
+
+
+def flood_schedules():
+    """slow target at REAL queue capacity (100): one target is stalled while > 100 watermarks are broadcast, then it
+    recovers and the cooperative phase must still complete (C03)."""
+    post = [{"c": "drain"}] + [{"c": "tick"}] * 4 + [{"c": "final"}]
+    out = []
+    for stalled, owner in ((2, 1), (1, 2)):
+        out.append({"id": "flood-stalled-t%d" % stalled, "ns": 1, "nt": 2, "route": {"1": [owner]}, "late": [],
+                    "cmds": [{"c": "flood", "s": 1, "t": stalled, "n": 105}] + post})
+    return out
+
+
 PROFILES = {
     ("C01", "quick"): dict(design=[("c01.cfg", 300)],
-                           gen=[("sim_c01.cfg", "bfs", 1, 2, [], 1200)]),
-    ("C01", "thorough"): dict(design=[("c01_t1.cfg", 2400), ("c01_t2.cfg", 2400), ("c02b_q.cfg", 1200)],
-                              gen=[("sim_c01.cfg", "bfs", 1, 2, [], 16000),
-                                   ("sim_c01_t.cfg", ("sim", 400, 60), 2, 2, [], 6000)]),
+                           gen=[("sim_c01.cfg", "bfs", 1, 2, [], 900), ("sim_c02.cfg", "bfs", 1, 2, [2], 500),
+                                ("sim_c01_t.cfg", ("sim", 60, 60), 2, 2, [], 300),
+                                ("sim_c03.cfg", ("sim", 600, 80), 1, 2, [], 200)]),
+    ("C01", "thorough"): dict(design=[("c01_t1.cfg", 2400), ("c01_t2.cfg", 2400), ("c02b_q.cfg", 1200), ("c02.cfg", 1800)],
+                              gen=[("sim_c01.cfg", "bfs", 1, 2, [], 16000), ("sim_c02.cfg", "bfs", 1, 2, [2], 8000),
+                                   ("sim_c01_t.cfg", ("sim", 500, 60), 2, 2, [], 8000)]),
     ("C02", "quick"): dict(design=[("c02_q.cfg", 300), ("c02b_q.cfg", 600)],
-                           gen=[("sim_c02.cfg", "bfs", 1, 2, [2], 800), ("sim_c02b.cfg", "bfs", 2, 2, [], 600)],
+                           gen=[("sim_c02.cfg", "bfs", 1, 2, [2], 700), ("sim_c02b.cfg", "bfs", 2, 2, [], 500),
+                                ("sim_c02i.cfg", ("sim", 40, 60), 1, 2, [], 48)],
                            post=["drain"]),
     ("C02", "thorough"): dict(design=[("c02.cfg", 1800), ("c02_t1.cfg", 3600), ("c02b.cfg", 3600)],
                               gen=[("sim_c02.cfg", "bfs", 1, 2, [2], 12000), ("sim_c02b.cfg", "bfs", 2, 2, [], 8000),
-                                   ("sim_c02_t.cfg", ("sim", 400, 70), 2, 3, [3], 6000)],
+                                   ("sim_c02_t.cfg", ("sim", 400, 70), 2, 3, [3], 6000),
+                                   ("sim_c02i.cfg", ("sim", 300, 60), 1, 2, [], 480)],
                               post=["drain"]),
     ("C03", "quick"): dict(design=[("c01.cfg", 300)], tick=[("tick.cfg", 600), ("tick_2s.cfg", 600)],
-                           gen=[("sim_c01.cfg", "bfs", 1, 2, [], 1000)],
+                           gen=[("sim_c01.cfg", "bfs", 1, 2, [], 600), ("sim_c01_t.cfg", ("sim", 80, 60), 2, 2, [], 300),
+                                ("sim_c03.cfg", ("sim", 1500, 80), 1, 2, [], 300)],
+                           extra=flood_schedules,
                            post=["drain", "tick", "tick", "tick", "tick", "final"]),
     ("C03", "thorough"): dict(design=[("c01_t1.cfg", 2400), ("c02b_q.cfg", 1200)],
-                              tick=[("tick.cfg", 900), ("tick_slow.cfg", 900), ("tick_2s.cfg", 1800)],
+                              tick=[("tick.cfg", 900), ("tick_slow.cfg", 1800), ("tick_2s.cfg", 1800)],
                               gen=[("sim_c01.cfg", "bfs", 1, 2, [], 12000), ("sim_c02b.cfg", "bfs", 2, 2, [], 6000),
-                                   ("sim_c01_t.cfg", ("sim", 300, 60), 2, 2, [], 4000)],
+                                   ("sim_c01_t.cfg", ("sim", 500, 60), 2, 2, [], 6000),
+                                   ("sim_c03.cfg", ("sim", 6000, 80), 1, 2, [], 4000)],
+                              extra=flood_schedules,
                               post=["drain", "tick", "tick", "tick", "tick", "final"]),
     ("C04", "quick"): dict(design=[("c04_q.cfg", 600)],
-                           gen=[("sim_c04.cfg", "bfs", 1, 2, [], 700), ("sim_c04s.cfg", "bfs", 1, 2, [], 300)]),
+                           gen=[("sim_c04.cfg", "bfs", 1, 2, [], 600), ("sim_c04s.cfg", "bfs", 1, 2, [], 250),
+                                ("sim_c04h.cfg", "bfs", 1, 2, [], 300, hold_filter)]),
     ("C04", "thorough"): dict(design=[("c04.cfg", 2400), ("c04s.cfg", 2400), ("c04_t1.cfg", 5400)],
                               gen=[("sim_c04.cfg", "bfs", 1, 2, [], 12000), ("sim_c04s.cfg", "bfs", 1, 2, [], 3000),
+                                   ("sim_c04h.cfg", "bfs", 1, 2, [], 4000, hold_filter),
                                    ("sim_c04_t.cfg", ("sim", 300, 70), 2, 2, [], 3000)]),
 }
 
@@ -63,7 +98,11 @@ def to_int(x):
 def hist_to_schedule(h, ns, nt, late, idx):
     route = {str(to_int(s)): [to_int(t) for t in ts] for s, ts in h[0]["route"].items()}
     cmds = []
+    tags = []
     for c in h[1:]:
+        if c["c"] == "tags":
+            tags = sorted(c.get("tags", []))
+            continue
         d = {"c": c["c"]}
         for k in ("s", "t"):
             if k in c:
@@ -75,10 +114,10 @@ def hist_to_schedule(h, ns, nt, late, idx):
     # trailing settles are implied
     while cmds and cmds[-1]["c"] == "settle":
         cmds.pop()
-    return {"id": "b%d" % idx, "ns": ns, "nt": nt, "route": route, "late": late, "cmds": cmds}
+    return {"id": "b%d" % idx, "ns": ns, "nt": nt, "route": route, "late": late, "cmds": cmds, "tags": tags}
 
 
-def generate(c, cfg, mode, ns, nt, late, limit):
+def generate(c, cfg, mode, ns, nt, late, limit, keep=None):
     seen = {}
 
     def on_line(line):
@@ -89,6 +128,8 @@ def generate(c, cfg, mode, ns, nt, late, limit):
         except ValueError:
             return
         sc = hist_to_schedule(h, ns, nt, late, 0)
+        if keep is not None and not keep(sc):
+            return
         key = json.dumps([sc["route"], sc["cmds"]], sort_keys=True)
         if key not in seen:
             seen[key] = sc
@@ -104,7 +145,25 @@ def generate(c, cfg, mode, ns, nt, late, limit):
     scheds = [seen[k] for k in sorted(seen)]
     total = len(scheds)
     if total > limit:
-        scheds = random.Random(c.seed).sample(scheds, limit)
+        # coverage-guided selection: behaviours that exercise rare branches of the design (tags computed by TLC)
+        # are replayed first; the rest of the budget is a seeded random sample
+        freq = {}
+        for sc in scheds:
+            for t in sc.get("tags", []):
+                freq[t] = freq.get(t, 0) + 1
+        rnd = random.Random(c.seed)
+        rnd.shuffle(scheds)
+        tagged = [sc for sc in scheds if sc.get("tags")]
+        tagged.sort(key=lambda sc: min(freq[t] for t in sc["tags"]))
+        chosen, per_tag = [], {}
+        for sc in tagged:
+            rare = min(sc["tags"], key=lambda t: freq[t])
+            if per_tag.get(rare, 0) < max(8, limit // 8) and len(chosen) < limit // 2:
+                chosen.append(sc)
+                per_tag[rare] = per_tag.get(rare, 0) + 1
+        ids = {id(x) for x in chosen}
+        rest = [sc for sc in scheds if id(sc) not in ids]
+        scheds = chosen + rest[:limit - len(chosen)]
     for i, s in enumerate(scheds):
         s["id"] = "%s-%d" % (cfg[:-4], i)
     return scheds, total
@@ -113,7 +172,7 @@ def generate(c, cfg, mode, ns, nt, late, limit):
 def run_schedules(c, scheds, tag):
     """Runs schedules on the real code in parallel shards; returns list of per-run event lists."""
     binpath = c.go_test_build("proxy", HARNESS, name="routing")
-    nshard = min(NCPU, max(1, len(scheds) // 20))
+    nshard = min(NCPU, max(1, len(scheds) // 3 if len(scheds) < 100 else len(scheds) // 20))
     files = []
     for i in range(nshard):
         p = os.path.join(c.scratch, "%s-in-%d.ndjson" % (tag, i))
@@ -176,8 +235,13 @@ def conform_group(c, runs, idxs, tag, max_iter):
                 owner.append((ri, li))
         if not lines:
             break
-        res = c.tlc("Routing", "RoutingTrace", "trace.cfg", workers=1, dfs=True, timeout=1800, heap="3g",
-                    files={"trace.ndjson": "\n".join(lines) + "\n"}, name="trace-%s-%d" % (tag, it))
+        try:
+            res = c.tlc("Routing", "RoutingTrace", "trace.cfg", workers=1, dfs=True, timeout=c.trace_timeout, heap="3g",
+                        files={"trace.ndjson": "\n".join(lines) + "\n"}, name="trace-%s-%d" % (tag, it))
+        except Broken as ex:
+            # a rejection deep inside a group makes the depth-first search exhaustive; give up on this group
+            c.notes.append("trace conformance inconclusive for %d runs (group %s): %s" % (len(remaining), tag, ex))
+            return 0, rejected
         text = open(res.out).read()
         if "TRACE_ACCEPTED" in text:
             return len(remaining), rejected
@@ -224,7 +288,18 @@ def classify(run, li, clause, s, tid):
     closed = {(e["t"], e["inc"]) for e in upto if e["ev"] == "TgtClose"}
     owner_fault_after = any(e["ev"] == "TgtClose" and e["t"] == owner for e in upto[recv_at:])
     src_fault_after = any(e["ev"] == "SrcClose" and e["s"] == s for e in upto[recv_at:])
-    if src_fault_after:
+    held_at_recv = False
+    h = False
+    for k, e in enumerate(upto[:recv_at + 1]):
+        if e["ev"] == "TgtHeld" and e["t"] == owner:
+            h = True
+        elif e["ev"] == "TgtRelease" and e["t"] == owner:
+            h = False
+    held_at_recv = h
+    if held_at_recv:
+        # read while the owner's sender was closed-but-registered: the hand-off must fail and be retried
+        sig["cause"] = "dropped-in-close-window"
+    elif src_fault_after:
         sig["cause"] = "ack-state-reset-by-source-reconnect"
     elif sent and (sent[-1][1]["t"], sent[-1][1]["inc"]) in closed:
         sig["cause"] = "entry-lost-with-target-incarnation"
@@ -238,6 +313,7 @@ def classify(run, li, clause, s, tid):
 
 
 def run(c, a):
+    c.trace_timeout = 150 if c.tier == "quick" else 1200
     prof = PROFILES.get((c.pid, c.tier))
     if prof is None:
         raise Broken("no profile for %s/%s" % (c.pid, c.tier))
@@ -263,14 +339,20 @@ def run(c, a):
     # 2-4. behaviours -> real code -> monitor
     all_runs = []
     gen_info = []
-    for gi, (cfg, mode, ns, nt, late, limit) in enumerate(prof["gen"]):
-        scheds, total = generate(c, cfg, mode, ns, nt, late, limit)
+    for gi, gen in enumerate(prof["gen"]):
+        cfg, mode, ns, nt, late, limit = gen[:6]
+        scheds, total = generate(c, cfg, mode, ns, nt, late, limit, gen[6] if len(gen) > 6 else None)
         if not scheds:
             raise Broken("no behaviours generated from " + cfg)
         for sc in scheds:
             sc["cmds"] += [{"c": x} for x in prof.get("post", [])]
         runs = run_schedules(c, scheds, "g%d" % gi)
         gen_info.append({"cfg": cfg, "behaviours_generated": total, "replayed": len(scheds), "runs": len(runs)})
+        all_runs += [(scheds, r) for r in runs]
+    if prof.get("extra"):
+        scheds = prof["extra"]()
+        runs = run_schedules(c, scheds, "gx")
+        gen_info.append({"cfg": "constructed (real queue capacity)", "behaviours_generated": len(scheds), "replayed": len(scheds), "runs": len(runs)})
         all_runs += [(scheds, r) for r in runs]
     runs_only = [r for _, r in all_runs]
     viols, nlines = observe(c, runs_only, "all")
